@@ -263,7 +263,8 @@ def census_sentence(prop):
     for fname, rid, what in (('boundaries.json', 'RB', 'ordering comparisons split at the reviewed side of equality'),
                              ('amounts.json', 'RA', 'flow-control / budget calls receive the amount derived from the reviewed source'),
                              ('calls.json', 'RC', 'reviewed steps are still taken on every non-error path or at all, directly or through helpers'),
-                             ('guards.json', 'RG', 'reviewed actions execute under exactly the reviewed set of tests (control dependence)')):
+                             ('guards.json', 'RG', 'reviewed actions execute under exactly the reviewed set of tests (control dependence)'),
+                             ('writes.json', 'RW', 'reviewed bookkeeping assignments are still performed')):
         try:
             with open(os.path.join(base, fname)) as fh:
                 n = sum(1 for e in json.load(fh) if prop in e['props'])
